@@ -14,7 +14,7 @@ def load_known():
 
 
 class Report:
-    def __init__(self, prop, tier, seed, level='model_checking'):
+    def __init__(self, prop, tier, seed, level='model_checking', clear_replays=True):
         self.prop = prop
         self.tier = tier
         self.seed = seed
@@ -34,7 +34,7 @@ class Report:
         self.evaluations = 0
         self.rule = ''
         import glob
-        for f in glob.glob(os.path.join(ROOT, 'replays', f'{prop}_*.json')):
+        for f in (glob.glob(os.path.join(ROOT, 'replays', f'{prop}_*.json')) if clear_replays else []):
             os.remove(f)
 
     def add_tlc(self, res, label):
